@@ -7,13 +7,13 @@ import traceback
 def main():
     req = json.loads(sys.stdin.read())
     from .backend import RealBackend
-    from .harness import Goals, _load_scenario
+    from .harness import Goals, _load_scenario, run_scenario
 
     B = RealBackend(req.get("theta") or {})
     G = Goals(B, None)
     fn = _load_scenario(req["module"], req["scenario"])
     try:
-        fn(B, G, **req["kwargs"])
+        run_scenario(fn, B, G, req["kwargs"])
     except Exception as e:  # noqa: BLE001
         print(json.dumps(dict(error="%s: %s\n%s" % (type(e).__name__, e, traceback.format_exc()[-1500:]))))
         return 0
